@@ -74,14 +74,18 @@ CLAIMS = {
         design='7/C06', technique='Coq proof (corollary of the counting theorem C02_all_selected) + correspondence on outcomes',
         note=BASE_NOTE + " Re-evaluation consistency rests on the reset-in-finally repair (C04) and the correspondence; `the` nested as an operand is not modelled."),
     'C10': dict(
-        text=("PARTIAL. Proved: the algorithm of ForAll (one pass per universal value, running intersection, early exit) keeps exactly the rows "
-              "of the first pass matched in every other pass, for any number of universal values (C10_intersection_partial, induction over "
-              "the domain). NOT proved: that one pass returns exactly the satisfying assignments of the free variables under that universal "
-              "value (needs the partition invariant with the universal variable pre-bound); that half and the and_ combination are covered by "
-              "the correspondence: generated for_all queries (condition over the universal variable, the free variables, both, neither; "
-              "alone or and-ed on either side) compared with the model and the quantified specification, cache off and on."),
-        design='7/C10', technique='Coq proof (fold/intersection lemma by induction over the universal domain) + P-model correspondence',
-        note=BASE_NOTE + " CForAll is outside the fragment of the partition invariant; for_all under or_/not_ is outside the property."),
+        text=("Machine-checked over the P-model, for EVERY condition c of for_all(u, c) (any tree of comparisons, memberships, expressions, "
+              "and_/or_/not_ and sub-queries over the universal variable and any number of free variables), every heap, duplicate-free "
+              "domains, a non-empty universal domain and any incoming binding (for_all alone or and_-ed on the right): C10_forall - the "
+              "rows are exactly, each once flagged true, the assignments of the free variables under which c holds for EVERY universal "
+              "value; from C10_one_pass (one pass returns exactly the satisfying assignments of the free variables under that universal "
+              "value: the partition invariant with the universal variable pre-bound and the free variables completed) and "
+              "C10_intersection (running intersection with early exit = matched in every pass; induction over the universal domain). "
+              "Tie: generated for_all queries (condition over the universal variable, the free variables, both, neither; universal "
+              "EXPRESSIONS such as for_all(u.peer, c) whose values repeat; alone or and_-ed on either side) compared with the model and the "
+              "quantified specification, caching off and on, evaluated twice."),
+        design='7/C10', technique='Coq proof (partition invariant with a pre-bound variable + completion of free variables + intersection lemma by induction over the universal domain) + P-model correspondence',
+        note=BASE_NOTE + " The free variables are assumed to range over objects (rows of different passes are compared by Python equality, which is identity on them). for_all under or_/not_ and for_all nested in for_all are outside the proved fragment (basic excludes CForAll inside c)."),
     'C15': dict(
         text=("Machine-checked: C15_inline_sat (inlining every sub-query used as a condition preserves truth) and C15_inline_rows (the composed and "
               "the inlined query return the same rows for any selection, heap and domains): the nested An node is part of the fragment of the "
